@@ -98,6 +98,11 @@ def size_guard(ctx, fx, fn, rule, name, sites, payload_rx, want):
     for i, n in enumerate(sites):
         ctx.ob(rule, "%s/%s-handover#%d-behind-size-predicate" % (name, want, i), bool(good) and n not in r, site=fn.site(n), cfg=fx.cfg,
                detail="the payload is handed to the transport only over an edge implying len %s bound%s" % (need, " (or no maximum configured)" if want == "varint" else ""))
+    # exactness: a message of exactly the maximum passes, one byte more is refused (sender and receiver must agree on this boundary,
+    # otherwise a message the sender accepts is an error at the receiver or a legal size is refused)
+    rels = sorted({rel for sw, lab, rel, cn in facts})
+    ctx.ob(rule, "%s/%s-boundary-is-exact" % (name, want), rels == (["!=", "=="] if want == "identity" else ["<=", ">"]), cfg=fx.cfg,
+           site=fn.site(sorted(cmps)[0]) if cmps else fn.site(fn.entry), detail="facts on the edges of the size comparison: %s" % rels)
     # tightness: the refusal is reached only when the predicate fails
     bad_edges = {(sw, lab) for sw, lab, rel, cn in facts if rel in guards.IMPLIES["!=" if want == "identity" else ">"]}
     errs = [n for n, sh in fn.exits() if any("PermissionDenied" in s or s.startswith("Err") for s in sh)]
@@ -128,6 +133,9 @@ def r04_1(ctx, fx):
                 for lab in fn.variant_edges(sw, "None"):
                     none_edges.add((sw[0], lab))
         ctx.anchor("R04.1", "poll_next: comparison size vs max_size / Option switch on max_size", min(len(good), len(none_edges)), 1, cfg=fx.cfg)
+        rels = sorted({rel for sw, lab, rel, cn in facts})
+        ctx.ob("R04.1", "poll_next/receiver-boundary-is-exact(size<=max passes, size>max fails)", rels == ["<=", ">"], site=fn.site(fn.entry), cfg=fx.cfg,
+               detail="facts on the edges of the size comparison: %s; must be the sender's boundary (R04.2)" % rels)
         for i, c in enumerate(remote):
             r = fn.reach([rp.node for rp in rps], cut=good | none_edges, after=True)
             ctx.ob("R04.1", "poll_next/alloc#%d-behind-size<=max_size" % i, bool(good) and c.node not in r, site=fn.site(c.node), cfg=fx.cfg,
